@@ -79,3 +79,36 @@ pub fn ref_header(libver: u16, dataver: u32, compressed: bool) -> Vec<u8> {
     out.push(if compressed { 1 } else { 0 });
     out
 }
+
+// ---- net / time leaves (reference encodings written from the format notes: one-byte variant tag, then the address
+// as its integer value (to_bits) in little-endian; a duration as its 128-bit nanosecond count; a SystemTime as the
+// nanoseconds from the UNIX epoch with bit 127 set for times before it) -------------------------------------------
+impl RefEnc for std::net::IpAddr {
+    fn renc(&self, _v: u32, out: &mut Vec<u8>) {
+        match self {
+            std::net::IpAddr::V4(a) => { out.push(0); let o = a.octets(); out.extend_from_slice(&[o[3], o[2], o[1], o[0]]); }
+            std::net::IpAddr::V6(a) => { out.push(1); let o = a.octets(); let mut i = 16; while i > 0 { i -= 1; out.push(o[i]); } }
+        }
+    }
+}
+impl RefEnc for std::net::SocketAddr {
+    fn renc(&self, _v: u32, out: &mut Vec<u8>) {
+        match self {
+            std::net::SocketAddr::V4(a) => {
+                out.push(0); out.extend_from_slice(&a.port().to_le_bytes());
+                let o = a.ip().octets(); out.extend_from_slice(&[o[3], o[2], o[1], o[0]]);
+            }
+            std::net::SocketAddr::V6(a) => {
+                out.push(1); out.extend_from_slice(&a.port().to_le_bytes());
+                let o = a.ip().octets(); let mut i = 16; while i > 0 { i -= 1; out.push(o[i]); }
+                out.extend_from_slice(&a.flowinfo().to_le_bytes()); out.extend_from_slice(&a.scope_id().to_le_bytes());
+            }
+        }
+    }
+}
+impl RefEnc for std::time::Duration {
+    fn renc(&self, _v: u32, out: &mut Vec<u8>) {
+        let n: u128 = (self.as_secs() as u128) * 1_000_000_000 + self.subsec_nanos() as u128;
+        out.extend_from_slice(&n.to_le_bytes());
+    }
+}
